@@ -741,7 +741,29 @@ pub fn gen_opfee(seed: u64, n: usize) -> Vec<String> {
         }
     }
     // boundary: L1 cost on fixed inputs for every fork x scalar boundary
-    let inputs: Vec<Vec<u8>> = vec![vec![], vec![0x7f, 1, 2], vec![0xfa, 0xca, 0xde], vec![0xfa, 0, 0xca, 0, 0xde], vec![0u8; 1000], vec![42u8; 1000], (0..=255u8).collect(), vec![0x7f]];
+    let mut inputs: Vec<Vec<u8>> = vec![vec![], vec![0x7f, 1, 2], vec![0xfa, 0xca, 0xde], vec![0xfa, 0, 0xca, 0, 0xde], vec![0u8; 1000], vec![42u8; 1000], (0..=255u8).collect(), vec![0x7f]];
+    // FastLZ back-reference distance boundaries (level 1 encodes distances below 8192 only): an incompressible filler
+    // (a 16-bit LCG stream, no 3-byte repeat within the window) with one marker sequence recurring at exactly
+    // distance d, for d around 8192, and around the 264-byte maximal match length
+    {
+        let filler = |n: usize, seed: u32| -> Vec<u8> {
+            let mut x = seed; let mut v = Vec::with_capacity(n);
+            for _ in 0..n { x = x.wrapping_mul(1664525).wrapping_add(1013904223); v.push((x >> 24) as u8); }
+            v
+        };
+        for d in [8190usize, 8191, 8192, 8193, 8194, 65535, 65536] {
+            for mlen in [3usize, 4, 8, 264, 300] {
+                let marker: Vec<u8> = (0..mlen).map(|i| 0xA0u8.wrapping_add((i * 7) as u8)).collect();
+                let mut v = filler(40, 1);
+                v.extend_from_slice(&marker);
+                let gap = d.saturating_sub(mlen);
+                v.extend(filler(gap, 7 + d as u32));
+                v.extend_from_slice(&marker);
+                v.extend(filler(40, 3));
+                inputs.push(v);
+            }
+        }
+    }
     for spec in OP_SPECS {
         for inp in &inputs {
             for f in [U256::ZERO, U256::from(1), U256::from(1000), U256::from(1_000_000), U256::MAX] {
